@@ -368,7 +368,7 @@ def table_accounting(r, F):
         r.check(bool(sm.calls_to(T + '::consolidate')), 'table|set_max_size', sm.file, 'set_max_size evicts down to the new limit (consolidate)')
 
 
-def size_update_schedule(r, F):
+def size_update_schedule(r, F, nvals=4):
     """C10.R6: Encoder::update_max_size as a relation over orderings.
 
     The function only compares its integers (new value, pending values, the table's current maximum), so its
@@ -386,7 +386,7 @@ def size_update_schedule(r, F):
         return
     n = 0
     bad = 0
-    vals = range(4)
+    vals = range(nvals)
     for T in vals:
         for val in vals:
             pres = [('None', None)] + [('One', (a,)) for a in vals] + [('Two', (a, b)) for a in vals for b in vals if a <= b]
@@ -438,7 +438,7 @@ def size_update_schedule(r, F):
                               'update_max_size(new=%d) with pending %s%s, table max %d: %s' % (val, shape, ps or '', T, what))
     if not bad:
         r.ok('schedule|all-orderings', u.file, 'update_max_size keeps (final = requested, minimum signalled first) for all %d ordering cases of (new, pending, table max)' % n)
-    r.floor(n, 240, 'ordering cases of update_max_size evaluated')
+    r.floor(n, 240 if nvals == 4 else nvals * nvals * (1 + nvals + nvals * (nvals + 1) // 2), 'ordering cases of update_max_size evaluated')
 
 
 def encoder_table_accounting(r, F):
